@@ -69,6 +69,8 @@ Ctx(J, d, r, lam) ==
       normH |-> NormInf(H), nb |-> VMaxAbs(b),
       trH |-> SumSeq([i \in 1..n |-> H[i][i]], n),      \* >= lambda_max(H)   (H is positive definite)
       mu |-> MinSeq(ld2, n),                             \* <= lambda_min(H)   (J'J is positive semi-definite)
+      trJ |-> SumSeq([i \in 1..n |-> JtJ[i][i]], n),    \* trace J'J  = |J|_F^2
+      trR |-> SumSeq(ld2, n),                            \* trace lambda D^2
       dmax |-> VMaxAbs(d), dmax2 |-> MaxSeqR(d2, n)]
 
 \* certified: cond_2(H) <= trH / mu <= 1e8
@@ -206,6 +208,14 @@ Pattern(J, dep) ==
      ELSE IF DepWitness(J, dep) THEN "dep"
      ELSE IF n > Len(J) THEN "wide"
      ELSE "gen"
+\* SCALE strata: magnitude of the entries of J; weight of J'J against the regularisation lambda D^2
+ScaleClass(J) ==
+  LET a == MaxAbs(J)
+  IN IF RSign(a) = 0 THEN "zero" ELSE IF RLt(a, Dec(1, -5)) THEN "tiny" ELSE IF RLt(a, Dec(3, -2)) THEN "small"
+     ELSE IF RLeq(a, Dec(3, 1)) THEN "unit" ELSE "large"
+Balance(c) ==
+  IF RLeq(RMul(Dec(1, 3), c.trR), c.trJ) THEN "Jdominant"
+  ELSE IF RLeq(RMul(Dec(1, -3), c.trR), c.trJ) THEN "balanced" ELSE "Rdominant"
 SizeClass(e) == IF e.m <= 6 /\ e.n <= 6 THEN "S" ELSE IF e.m <= 20 /\ e.n <= 20 THEN "M" ELSE "L"
 \* nearest decade of a positive rational: 10^(k-1/2) <= x < 10^(k+1/2)
 Decade(x) == LET x2 == SqR(x) IN CHOOSE k \in -8..8 : RLeq(Pow10(2 * k - 1), x2) /\ RLt(x2, Pow10(2 * k + 1))
@@ -213,6 +223,8 @@ DKeys(d) ==
   (IF \E i \in 1..Len(d) : RLeq(d[i], Dec(1, -6)) THEN <<"d|le1e-6">> ELSE <<>>)
   \o (IF \E i \in 1..Len(d) : RLeq(Dec(1, 3), d[i]) THEN <<"d|ge1e3">> ELSE <<>>)
   \o (IF \A i \in 1..Len(d) : REq(d[i], R1) THEN <<"d|ones">> ELSE <<>>)
+  \o (IF \A i \in 1..Len(d) : RLeq(d[i], Dec(1, -3)) THEN <<"d|all<=1e-3">> ELSE <<>>)
+  \o (IF \A i \in 1..Len(d) : RLeq(Dec(1, 2), d[i]) THEN <<"d|all>=1e2">> ELSE <<>>)
 RKeys(c) == IF RSign(VMaxAbs(c.r)) = 0 THEN <<"r|zero">> ELSE IF RSign(c.nb) = 0 THEN <<"r|orthogonal">> ELSE <<"r|generic">>
 StKeys(e) == [k \in 1..Len(e.res) |-> e.op \o "|st|" \o e.res[k].st]
 ShapeKey(e) == IF e.m <= 6 /\ e.n <= 6 THEN <<e.op \o "|shape|" \o ToString(e.m) \o "x" \o ToString(e.n)>> ELSE <<>>
@@ -244,7 +256,8 @@ LdltKeys(e) ==
       pat == Pattern(J, e.dep)  sz == SizeClass(e)
       k == IF Certified(c) THEN "cert" ELSE "excluded"
   IN <<"ldlt|" \o pat \o "|" \o sz \o "|" \o k,
-       "agree|" \o k,
+       "agree|" \o k \o "|" \o ScaleClass(J),
+       "ldlt|scale|" \o ScaleClass(J) \o "|" \o Balance(c),
        "dphi|" \o (IF RSign(c.nb) = 0 THEN "zero" ELSE DphiClass(c)) \o "|" \o sz,
        "ldlt|lambda|1e" \o ToString(Decade(c.lam)),
        "ldlt|entries|" \o (IF IntEntries(J) THEN "integer" ELSE "double")>>
@@ -287,7 +300,9 @@ TTr(e) ==
   IN ForAllCat(Len(e.res), One)
 TrKeys(e) ==
   LET J == M(e.J)  pat == Pattern(J, e.dep)
-  IN <<"tr|" \o pat \o "|" \o SizeClass(e), "tr|Delta|1e" \o ToString(Decade(RFromDouble(e.Delta)))>>
+      c == Ctx(J, V(e.d), V(e.r), RDiv(R1, RFromDouble(e.Delta)))
+  IN <<"tr|" \o pat \o "|" \o SizeClass(e), "tr|Delta|1e" \o ToString(Decade(RFromDouble(e.Delta))),
+       "tr|scale|" \o ScaleClass(J) \o "|" \o Balance(c)>>
      \o StKeys(e) \o ShapeKey(e)
 
 \* op "colnorm": colwise_norm(J) for every storage
@@ -307,7 +322,7 @@ TColnorm(e) ==
                 IN ForAllCat(n, Col)
   IN ForAllCat(Len(e.res), One)
 ColnormKeys(e) ==
-  LET J == M(e.J) IN <<"colnorm|" \o Pattern(J, e.dep) \o "|" \o SizeClass(e)>> \o StKeys(e) \o ShapeKey(e)
+  LET J == M(e.J) IN <<"colnorm|" \o Pattern(J, e.dep) \o "|" \o SizeClass(e), "colnorm|scale|" \o ScaleClass(J)>> \o StKeys(e) \o ShapeKey(e)
 
 ---------------------------------------------------------------------------
 Check(e) ==
